@@ -472,6 +472,38 @@ def r_mirror(E):
     pairing = _pair_segments(TxnAnalysis(pm))
     sa, sb = _zip_loop(a, pairing), _zip_loop(b, pairing)
     res.instances = 1
+    # the on/off state that guards the two loops has two values: a state that *counts* (set increments, reset decrements and
+    # only swaps at zero) makes `set, set, reset` leave the simulated values in the model
+    from ..astutil import path_conditions as _pcs
+    T0 = TxnAnalysis(pm)
+    counted = []
+    for fn_ in (a, b):
+        loop_ = next((n for n in ast.walk(fn_) if isinstance(n, ast.For) and any(
+            isinstance(c, ast.Call) and isinstance(c.func, ast.Attribute)
+            and c.func.attr == "replace_in_mod_obj_container_without_recomputation" for c in ast.walk(n))), None)
+        if loop_ is None:
+            continue
+        state = set()
+        for t, _pol in _pcs(loop_, fn_):
+            for x in ast.walk(t):
+                if isinstance(x, ast.Attribute) and isinstance(x.value, ast.Name) and x.value.id == "self":
+                    state.add(x.attr)
+                    pr = T0.methods.get(x.attr)
+                    if pr is not None and is_property(pr):
+                        state |= {y.attr for y in ast.walk(pr) if isinstance(y, ast.Attribute)
+                                  and isinstance(y.value, ast.Name) and y.value.id == "self"}
+        for n in ast.walk(fn_):
+            if isinstance(n, ast.AugAssign) and isinstance(n.target, ast.Attribute) and norm(n.target.value) == "self" \
+                    and n.target.attr in state:
+                counted.append((fn_, n))
+    for fn_, n in counted:
+        res.findings.append(Finding(
+            "R-MIRROR", f"set/reset :: the on/off state {norm(n.target)} is counted",
+            f"ModelingUpdate.{fn_.name} does `{norm(n)}` on the state that guards the swap: the state counts requests instead "
+            f"of being on or off, so after set_updated_values() twice one reset_values() leaves the simulated values in "
+            f"the model (toggling is no longer idempotent)", rel, n.lineno, f"ModelingUpdate.{fn_.name}"))
+    if counted:
+        return res
     if sa is None or sb is None:
         res.undecided.append("set_updated_values / reset_values no longer have the guarded zip-loop shape")
         return res
@@ -616,6 +648,30 @@ def r_zip(E):
                 f"values back in the wrong places", rel, new.lineno, "ModelingUpdate.__init__"))
         elif len(res.samples) < 4:
             res.samples.append({"segment": i, "previous": a, "new": b, "verdict": "one append per element"})
+    # every list of values that an update replaces one for one is among the toggled segments: a pair of lists left out
+    # (the copies made of the untouched ancestors for a simulation) stays in the model when the simulation is switched off —
+    # the baseline then holds the copies, and its values list detached originals as ancestors
+    toggled = {(norm(p)[5:], norm(n)[5:]) for p, n in zip(ps, ns) if p is not None and n is not None
+               and norm(p).startswith("self.") and norm(n).startswith("self.")}
+    if pairing["kind"] == "records":
+        toggled |= {(a_, b_) for a_, b_ in lock if any(a_ in norm(x) and b_ in norm(x) for seg in pairing["segments"] for x in seg
+                                                        if x is not None)}
+    # (lists kept on the update object: a local list filled in a loop — ids collected for a log line — replaces nothing)
+    kept = set()
+    for (it_, tgt_), m_ in pairs.items():
+        if tgt_.startswith("self."):
+            kept.add((it_, tgt_[5:]))
+        elif (m_, tgt_) in alias:
+            kept.add((it_, alias[(m_, tgt_)]))
+    for a_, b_ in sorted(kept):
+        res.instances += 1
+        if (a_, b_) not in toggled:
+            res.findings.append(Finding(
+                "R-ZIP", f"replaced pair {a_} ~ {b_} is not toggled",
+                f"self.{b_} holds one replacement per element of self.{a_}, but the pair is not among the segments that "
+                f"reset_values / set_updated_values swap: after a simulation the model keeps the replacements "
+                f"(value-equal copies) instead of the original objects, whose children still point to the originals", rel,
+                new.lineno, "ModelingUpdate.__init__"))
     # twins
     rel2, tw = pm.find_function(MU, "ModelingUpdate.link_simulated_and_baseline_twins")
     res.instances += 1
@@ -828,6 +884,53 @@ def _enclosing(n):
             cls = x
         x = getattr(x, "_parent", None)
     return (f"{cls.name}.{fn.name}" if cls is not None and fn is not None else (fn.name if fn is not None else "<module>")), fn
+
+
+@rule("R-RECOMP")
+def r_recomp(E):
+    pm = E.pm
+    res = RuleResult("R-RECOMP", "whether an accepted edit is followed by a recomputation does not depend on the edited object "
+                                 "belonging to a system: in ModelingUpdate.__init__ the steps that work out what to recompute "
+                                 "(the object chain, values_to_recompute), apply the changes and recompute run under no "
+                                 "condition on self.system, and values_to_recompute is always what the chain generator "
+                                 "returned (an object edited before it is linked — a journey whose steps change — keeps "
+                                 "calculated attributes that nothing recomputes at linking time)")
+    from ..astutil import path_conditions as _pc
+    T = TxnAnalysis(pm)
+    init = T.methods.get("__init__")
+    if init is None:
+        raise AnalysisError("ModelingUpdate.__init__ vanished")
+    core = []
+    for st in ast.walk(init):
+        if isinstance(st, ast.Assign) and any(norm(t) in ("self.values_to_recompute", "self.mod_objs_computation_chain")
+                                              for t in st.targets):
+            core.append((st, norm(st.targets[0])))
+        elif isinstance(st, ast.Expr) and isinstance(st.value, ast.Call) and _self_method_call(st.value) in (
+                "apply_changes", "recompute_attributes"):
+            core.append((st, f"self.{_self_method_call(st.value)}()"))
+    if len({w for _, w in core}) < 4:
+        res.undecided.append(f"ModelingUpdate.__init__: core steps found: {sorted({w for _, w in core})} (4 expected)")
+        return res
+    for st, what in core:
+        res.instances += 1
+        sysconds = [t for t, pol in _pc(st, init) if any(
+            (isinstance(x, ast.Attribute) and x.attr in ("system", "systems")) or (isinstance(x, ast.Name) and x.id == "system")
+            for x in ast.walk(t))]
+        if sysconds:
+            res.findings.append(Finding(
+                "R-RECOMP", f"ModelingUpdate.__init__ :: {what} depends on the system",
+                f"ModelingUpdate.__init__ runs `{norm(st)[:70]}` only when `{norm(sysconds[0])[:50]}`: an edit of an "
+                f"object that is not linked to a system (yet, or any more) is applied but nothing is recomputed, and the "
+                f"recomputation done when it is linked later does not cover attributes such as UsageJourney.duration", T.rel,
+                st.lineno, "ModelingUpdate.__init__"))
+        if isinstance(st, ast.Assign) and isinstance(st.value, (ast.List, ast.Tuple, ast.Constant)) \
+                and what == "self.values_to_recompute":
+            res.findings.append(Finding(
+                "R-RECOMP", "ModelingUpdate.__init__ :: values_to_recompute set to a literal",
+                f"ModelingUpdate.__init__ sets `{norm(st)[:60]}`: on the paths where this assignment is the last one "
+                f"nothing is recomputed after the changes are applied", T.rel, st.lineno, "ModelingUpdate.__init__"))
+    res.floor = 4
+    return res
 
 
 @rule("R-ENTRY")
@@ -1489,6 +1592,26 @@ def r_pureview(E):
     pm = E.pm
     res = RuleResult("R-PUREVIEW", "reading, explaining, plotting or exporting results performs no store into a model "
                                    "object or an operand and calls no value-changing in-place method")
+    # value-changing in-place methods of the value classes: those that store into self.value (unit conversions keep
+    # the physical value); whether copy(x) shares x.value is read from ExplainableObject.__copy__
+    inplace_methods = {"ceil", "round"}
+    for cn, ci in pm.classes.items():
+        if not ci.path.endswith(("explainable_objects.py", "explainable_object_base_class.py")):
+            continue
+        for m in [x for x in ci.node.body if isinstance(x, ast.FunctionDef) and not x.name.startswith("__")]:
+            for a in ast.walk(m):
+                if isinstance(a, (ast.Assign, ast.AugAssign)):
+                    for t in (a.targets if isinstance(a, ast.Assign) else [a.target]):
+                        b = t
+                        while isinstance(b, ast.Subscript):
+                            b = b.value
+                        if norm(b) == "self.value" and not (isinstance(a, ast.Assign) and ".to(" in norm(a.value)):
+                            inplace_methods.add(m.name)
+    _, cp = pm.find_method("ExplainableObject", "__copy__")
+    shallow_copy = cp is not None and any(
+        isinstance(c, ast.Call) and any(norm(v) == "self.value" for v in list(c.args) + [k.value for k in c.keywords])
+        for c in ast.walk(cp))
+    res.samples.append({"in_place_methods": sorted(inplace_methods), "copy_shares_value": shallow_copy})
     for mod, (rel, tree, src) in sorted(pm.modules.items()):
         for fn in [n for n in ast.walk(tree) if isinstance(n, ast.FunctionDef) and n.name in VIEW_FUNCS]:
             q, _ = _enclosing(fn.body[0]) if fn.body else (fn.name, None)
@@ -1510,12 +1633,23 @@ def r_pureview(E):
                                 "R-PUREVIEW", f"{q} :: {norm(n)[:90]}",
                                 f"{q} stores into its argument {b.id} ({norm(n)[:60]}): a read-only view alters the model",
                                 rel, n.lineno, q))
-                if isinstance(n, ast.Call) and isinstance(n.func, ast.Attribute) and n.func.attr in ("ceil", "round") \
-                        and isinstance(n.func.value, (ast.Attribute, ast.Name)) and "self" in norm(n.func.value) \
-                        and not norm(n.func.value).startswith(("np", "math")):
-                    res.findings.append(Finding(
-                        "R-PUREVIEW", f"{q} :: {norm(n)[:90]}",
-                        f"{q} calls the in-place .{n.func.attr}() on model state", rel, n.lineno, q))
+                if isinstance(n, ast.Call) and isinstance(n.func, ast.Attribute) and n.func.attr in inplace_methods:
+                    from ..astutil import fully_expanded
+                    recv, via = fully_expanded(n.func.value, fn), ""
+                    # a shallow copy (copy(x) -> ExplainableObject.__copy__ hands x.value itself to the new object) and the
+                    # methods that return their receiver still designate the model's own frame / quantity
+                    while isinstance(recv, ast.Call):
+                        if norm(recv.func) in ("copy", "copy.copy") and recv.args and shallow_copy:
+                            recv, via = recv.args[0], " (through a shallow copy that shares its value)"
+                        elif isinstance(recv.func, ast.Attribute) and recv.func.attr in ("set_label", "to"):
+                            recv = recv.func.value
+                        else:
+                            break
+                    if isinstance(recv, (ast.Attribute, ast.Name)) and "self" in norm(recv) \
+                            and not norm(recv).startswith(("np", "math")):
+                        res.findings.append(Finding(
+                            "R-PUREVIEW", f"{q} :: {norm(n)[:90]}",
+                            f"{q} calls the in-place .{n.func.attr}() on model state{via}", rel, n.lineno, q))
     # the System footprint views, through the interpreter
     for v in SYSTEM_VIEWS:
         res.instances += 1
@@ -1543,7 +1677,7 @@ def r_pureview(E):
             res.findings.append(Finding("R-PUREVIEW", f"System.{v} frame store :: {norm(node)[:80]}",
                                         f"the view System.{v} stores into a frame shared with the model", where[0],
                                         node.lineno, where[1]))
-    res.samples = [{"system_views_interpreted": SYSTEM_VIEWS}]
+    res.samples.append({"system_views_interpreted": SYSTEM_VIEWS})
     res.floor = 30
     return res
 
